@@ -91,7 +91,17 @@ def drive(run, cases, tag):
             fa = os.path.join(tmp, "s%d.fa%s" % (ci, ".gz" if gz else ""))
             vlib.write_fasta(fa, recs, gz=gz)
             out = os.path.join(tmp, "o%d" % ci)
-            if gz:
+            if len(recs) >= 2 and ci % 3 == 0:
+                # one sample given as two FASTA files in the file list (an assembly kept as chromosome + plasmid files):
+                # the sample's records are the records of both files
+                cut = (len(recs) + 1) // 2
+                fa2 = os.path.join(tmp, "s%d_b.fa%s" % (ci, ".gz" if gz else ""))
+                vlib.write_fasta(fa, recs[:cut], gz=gz)
+                vlib.write_fasta(fa2, recs[cut:], gz=gz)
+                fl = os.path.join(tmp, "l%d.txt" % ci)
+                open(fl, "w").write("s%d\t%s\t%s\n" % (ci, fa, fa2))
+                args = ["build", "-o", out, "-k", str(k), "-f", fl] + ([] if rc else ["--single-strand"])
+            elif gz:
                 # .fa.gz is not an extension `ska build` strips for the sample name: name it through a file list
                 fl = os.path.join(tmp, "l%d.txt" % ci)
                 open(fl, "w").write("s%d\t%s\n" % (ci, fa))
@@ -130,7 +140,8 @@ def run(run, tier, seed):
     run.rule = ("design: every record over {A,C,G,T,N} up to the length bound, k=5, both strand modes, iterator run to "
                 "exhaustion in TLC and each behaviour replayed into SplitKmer<u64|u128>; traces: generated record sets "
                 "(lengths k-2..k+2, 2k, 3k+-1, 150..400; N/n at distances 0,1,k-1,k,k+1; planted repeats / self-RC arms; "
-                "mixed case) for all 30 k through SplitKmer, SkaDict (both widths) and ska build+nk (plain/.gz). "
+                "mixed case) for all 30 k through SplitKmer, SkaDict (both widths) and ska build+nk (plain/.gz; every third multi-record "
+                "sample as two FASTA files of one file-list line). "
                 "non-trivial = has a valid window AND (invalid byte or record length <= k+1); distinct by (k, rc, records)")
     run.assumptions = ["needletail parses the FASTA files the driver writes into the records the driver intended",
                        "TLC + CommunityModules Json reader", "the projection (packed integer -> base-4 digits) in skav"]
